@@ -285,6 +285,33 @@ func c13multi(c *Ctx) {
 			c.Fail("C13: multi-WriteSyncer Sync does not return exactly the errors of its sinks", "vector %d: got %v, want all of %v", code, serr, wantSyncErrs)
 			return
 		}
+		// every Sync reaches every sink: also one that follows another Sync
+		// with nothing written in between, and with other sinks failing now
+		for round := 2; round <= 3; round++ {
+			var want2 []error
+			for i, s := range sinks {
+				var se error
+				if ((v+round)>>uint(i))&1 == 1 {
+					se = fmt.Errorf("injected sync error #%d on %s", round, s.Name)
+					want2 = append(want2, se)
+				}
+				for len(s.SyncPlan) < round-1 {
+					s.SyncPlan = append(s.SyncPlan, nil)
+				}
+				s.SyncPlan = append(s.SyncPlan, se)
+			}
+			serr = m.Sync()
+			for i, s := range sinks {
+				if s.Syncs != round {
+					c.Fail("C13: multi-WriteSyncer Sync did not reach every sink exactly once", "vector %d: after %d consecutive Sync calls sink %d got %d", code, round, i, s.Syncs)
+					return
+				}
+			}
+			if !c13errsMatch(serr, want2) {
+				c.Fail("C13: multi-WriteSyncer Sync does not return exactly the errors of its sinks", "vector %d, Sync #%d: got %v, want all of %v", code, round, serr, want2)
+				return
+			}
+		}
 	}
 }
 
